@@ -97,3 +97,84 @@ Theorem C08_aes_layout_concrete : forall k iv text, length iv = 16 ->
   length (aes_encrypt (aes256_encrypt_block k) iv text) = blk + blk * (length text / blk + 1).
 Proof. exact aes256_cbc_layout. Qed.
 Print Assumptions C08_aes_layout_concrete.
+
+(* ---- the field-level wrapper: SecureField.to_basic / to_python (SecureShape.v) over an arbitrary stored value ---- *)
+From Coq Require Import String.
+From Cinco Require Import Challenge SecureShape SecureShapeLemmas.
+
+(* bytes.decode() inverts str.encode() *)
+Theorem C08_utf8_dec_enc : forall s b, Codec.utf8_enc s = Some b -> utf8_dec b = Some s.
+Proof. exact utf8_dec_enc. Qed.
+Print Assumptions C08_utf8_dec_enc.
+
+(* (a) stored secrets of the wrong shape or encoding are rejected with an error rather than returning a value:
+   everything that is not None, not a str and not a map {method: "aes"|"xor"|"best", ciphertext: str that the
+   (non-validating) base64 decoder accepts} gives Err -- any types, any extra keys, any key, AES available or not *)
+Theorem C08_shape_rejected : forall aes key v,
+  stored_shape v = false -> shape_modelled v = true -> exists e, to_python aes key v = Err e.
+Proof. exact shape_rejected. Qed.
+Print Assumptions C08_shape_rejected.
+
+Theorem C08_value_only_from_shape : forall aes key v r, to_python aes key v = Ok r -> stored_shape v = true.
+Proof. exact value_only_from_shape. Qed.
+Print Assumptions C08_value_only_from_shape.
+
+(* inside the shape the outcome is the cipher's: the recorded method picks the provider, nothing else is read *)
+Theorem C08_shape_accepted : forall aes key tg d m c ct pm,
+  dget k_method d = Some (PStr m) -> dget k_ciphertext d = Some (PStr c) ->
+  b64_decode c = Some ct -> provider_of_str aes m = Some pm ->
+  to_python aes key (PDict tg d) = finish (cdecrypt aes key pm ct).
+Proof. exact shape_accepted. Qed.
+Print Assumptions C08_shape_accepted.
+
+Theorem C08_to_python_ok_iff : forall aes key v r,
+  to_python aes key v = Ok r <->
+  (v = PNone /\ r = PNone) \/ (exists s, v = PStr s /\ r = PStr s) \/
+  (exists tg d m c ct pm t s,
+      v = PDict tg d /\ dget k_method d = Some (PStr m) /\ dget k_ciphertext d = Some (PStr c) /\
+      b64_decode c = Some ct /\ provider_of_str aes m = Some pm /\
+      cdecrypt aes key pm ct = Ok t /\ utf8_dec t = Some s /\ r = PStr s).
+Proof. exact to_python_ok_iff. Qed.
+Print Assumptions C08_to_python_ok_iff.
+
+(* (b) C08_aes_rejects lifted through the wrapper *)
+Theorem C08_field_aes_short_rejected : forall aes key tg d m c ct,
+  dget k_method d = Some (PStr m) -> dget k_ciphertext d = Some (PStr c) ->
+  b64_decode c = Some ct -> provider_of_str aes m = Some UseAes ->
+  (List.length ct < 32 \/ List.length ct mod 16 <> 0)%nat ->
+  exists e, to_python aes key (PDict tg d) = Err e.
+Proof. exact aes_short_rejected. Qed.
+Print Assumptions C08_field_aes_short_rejected.
+
+(* (c) to_python (to_basic p) = p for every non-empty str that UTF-8 encodes, every 32-byte key, every 16-byte IV,
+   every declared method: base64, XOR / CBC + PKCS7 + the AES-256 of Aes.v and UTF-8 composed, no hypothesis left *)
+Theorem C08_field_roundtrip : forall aes key iv declared p b pm,
+  List.length key = 32%nat -> bytes_ok key = true -> List.length iv = 16%nat -> bytes_ok iv = true ->
+  p <> [] -> Codec.utf8_enc p = Some b ->
+  provider_of_str aes declared = Some pm -> (pm = UseAes -> aes = true) ->
+  exists v, to_basic aes key declared iv (PStr p) = Ok v /\
+            stored_shape v = true /\
+            to_python aes key v = Ok (PStr p).
+Proof. exact field_roundtrip. Qed.
+Print Assumptions C08_field_roundtrip.
+
+Theorem C08_field_empty_is_null : forall aes key declared iv,
+  to_basic aes key declared iv (PStr []) = Ok PNone /\ to_basic aes key declared iv PNone = Ok PNone /\
+  to_python aes key PNone = Ok PNone.
+Proof. exact empty_is_null. Qed.
+Print Assumptions C08_field_empty_is_null.
+
+(* (d) what to_basic writes: null, or {method: concrete, ciphertext: base64 text} *)
+Theorem C08_to_basic_shape : forall aes key declared iv v r,
+  to_basic aes key declared iv v = Ok r ->
+  r = PNone \/
+  exists pm ct, r = PDict 0 [(k_method, PStr (cmeth_name pm)); (k_ciphertext, PStr (b64_encode ct))] /\
+                provider_of_str aes declared = Some pm.
+Proof. exact to_basic_shape. Qed.
+Print Assumptions C08_to_basic_shape.
+
+Theorem C08_to_basic_method_concrete : forall aes key declared iv v tg d,
+  to_basic aes key declared iv v = Ok (PDict tg d) ->
+  dget k_method d = Some (PStr (sa "aes")) \/ dget k_method d = Some (PStr (sa "xor")).
+Proof. exact to_basic_method_concrete. Qed.
+Print Assumptions C08_to_basic_method_concrete.
